@@ -263,19 +263,4 @@ def wireKey (fa : List Char × Option (List Char)) : List Char := fa.2.getD fa.1
 def effKey (nfkc : List Char → List Char) (fa : List Char × Option (List Char)) : List Char :=
   fa.2.getD (nfkc fa.1)
 
-/-! ### TypedDict: class syntax or functional syntax (model/typed_dict.py) -/
-
-/-- `_is_valid_field_name` on (field.name, original_name): the key is an identifier, not a keyword,
-and equal to the sanitised member name -/
-def tdValid (f : List Char × List Char) : Bool :=
-  isIdentifier f.2 && !isKeyword f.2 && f.2 == f.1
-
-/-- `TypedDict.is_functional_syntax` -/
-def tdFunctional (fs : List (List Char × List Char)) : Bool := fs.any (fun f => !tdValid f)
-
-/-- the keys the rendered TypedDict declares: functional syntax writes `field.key` (the original name),
-class syntax writes `field.name` -/
-def tdKeys (fs : List (List Char × List Char)) : List (List Char) :=
-  if tdFunctional fs then fs.map (·.2) else fs.map (·.1)
-
 end Dcg.Model.Names
